@@ -108,6 +108,7 @@ type entry struct {
 	cost     int  // relative cost per input (scheduling only)
 	scale    bool // take part in the scaling probe (runner implements scaler)
 	quota    func(state string, thorough bool) int // optional: inputs for one state (default: equal split)
+	scaleIn  []string                              // optional: states that take part in the scaling probe (default: all)
 	open     func(state string, env *env) (runner, error)
 }
 
@@ -420,6 +421,9 @@ func childScale(e *entry, sp *spec, res *result) {
 	states := e.states
 	if len(states) == 0 {
 		states = []string{""}
+	}
+	if e.scaleIn != nil {
+		states = e.scaleIn
 	}
 	sizes := []int{512, 1024, 2048}
 	for _, st := range states {
